@@ -117,6 +117,11 @@ KindsOf(r) ==
   \cup (IF r.ty = "addr" THEN {"addr"} ELSE {})
   \cup (IF r.sib # "" THEN {"swap"} ELSE {})
 Rewrites == {"reencode", "keyorder", "indent", "hexcase", "addrcase"}
+\* Safe multisig signatures (v1.11 only: "concatenated 65-byte signatures", ssz List[Bytes65,32]): the EIP712 signature
+\* leaves may hold several signatures; every byte of them is definition-hashed.  Alterations at given positions:
+\* first / middle / last byte, and a byte inside the 1st, 2nd, 3rd 65-byte segment.
+MultiSigLeaves == {"operators[].config_signature", "operators[].enr_signature", "creator.config_signature"}
+PosKinds == {"flip_first", "flip_mid", "flip_last", "flip_seg1", "flip_seg2", "flip_seg3"}
 \* the JSON token a leaf of an encoding is written as
 JsonKind(ty) == CASE ty = "num" -> "number" [] ty = "bool" -> "bool" [] OTHER -> "string"
 \* versions sharing one JSON layout of the definition: candidates for the "ver" alteration
@@ -166,7 +171,10 @@ OpSigFail == \/ V <= 2 /\ (Alt("operators[].config_signature") \/ Alt("operators
              \/ V >= 3 /\ cfg.signed /\ (Alt("operators[].config_signature") \/ Alt("operators[].enr_signature"))
              \/ V >= 4 /\ cfg.signed /\ Alt("creator.config_signature")
 SigsFail == AggSigFail \/ NodeSigFail \/ RegSigFail \/ OpSigFail
-Detects == LoadFail \/ HashesFail \/ SigsFail
+\* multisig artifacts (cfg.msig > 0 signatures per leaf) need an execution client for VerifySignatures (ERC-1271), which
+\* is not available: for them the observable is loading + VerifyHashes only
+HashOnly == cfg.msig > 0
+Detects == LoadFail \/ HashesFail \/ (~HashOnly /\ SigsFail)
 
 IsRewrite == cur.kind \in Rewrites
 \* an address spelled in another letter case is the same address since v1.3 (hashed and compared as 20 bytes); the
@@ -175,7 +183,8 @@ LegacyAddrCase == cur.kind = "addrcase" /\ V <= 2
 Expected == IF ~cur.changed THEN (IF LegacyAddrCase THEN "either" ELSE "intact")
             ELSE IF Detects THEN "detected" ELSE "either"
 \* the documented exceptions of tamper evidence (everything else must be detected)
-Excepted == AggRemoved
+\* ... and, where only the hashes can be looked at, the two leaves that are signatures over the lock hash (lock_hash:"-")
+Excepted == AggRemoved \/ (HashOnly /\ cur.leaf \in {"signature_aggregate", "node_signatures[]"})
 
 -----------------------------------------------------------------------------------------------------------------
 \* ---- consistency of what `create cluster` / the format writer produced with what was asked for ----
@@ -267,7 +276,8 @@ Deposits(i, files) == /\ Idle /\ cfg.src = "create" /\ i \in 1..cfg.n /\ Deposit
 
 \* one leaf of a copy of the pristine file is altered (changed: the new VALUE differs), or the file is rewritten
 Tamper(full, kind, changed) ==
-  /\ Idle /\ HasRow(full) /\ kind \in KindsOf(RowOf(full))
+  /\ Idle /\ HasRow(full)
+  /\ kind \in KindsOf(RowOf(full)) \cup (IF HashOnly /\ RowOf(full).p \in MultiSigLeaves THEN PosKinds ELSE {})
   /\ cur' = [state |-> "altered", leaf |-> RowOf(full).p, kind |-> kind, changed |-> changed]
   /\ verdict' = "none" /\ obs' = NoObs /\ UNCHANGED <<cfg, phase, lk>>
 Rewrite(kind) ==
